@@ -1,7 +1,7 @@
 (* C08 Declared field lengths are enforced on both pack and unpack. Proofs in Proofs/FieldProofs.v; the statement for
-   whole specification trees (every node that contributed bytes, at every depth) is C08_pack_tree, Proofs/LengthTree.v. *)
+   whole specification trees (every node that contributed bytes, at every depth) is C08_pack_tree, Proofs/LengthTree.v, and on the Unpack side C08_unpack_tree, Proofs/AcceptedTree.v. *)
 From Iso Require Import Model.Base Model.Padding Model.Encoding Model.Prefix Model.Bitmap Model.Spec Model.Field
-     Proofs.BaseLemmas Proofs.EncodingProofs Proofs.PrefixProofs Proofs.FieldProofs Proofs.CompositeProofs Proofs.LengthTree Properties.C01.
+     Proofs.BaseLemmas Proofs.EncodingProofs Proofs.PrefixProofs Proofs.FieldProofs Proofs.CompositeProofs Proofs.LengthTree Proofs.AcceptedTree Properties.C01.
 
 (* Pack returns bytes only if the (padded) value is within the declared maximum, equal to the declared
    length of a fixed field, and expressible in the prefix's digits *)
@@ -58,6 +58,31 @@ Proof. split; vm_compute; reflexivity. Qed.
 Theorem C08_pack_tree : forall s, coherent s -> forall st b, pack_f s st = Ok b -> pack_enforced s st.
 Proof. exact pack_enforces_tree. Qed.
 Print Assumptions C08_pack_tree.
+
+(* the Unpack side for whole trees: everything a successful Unpack of a coherent specification leaves populated - the field
+   itself and, recursively, every set subfield at every depth - was itself produced by a successful Unpack of its own
+   specification (accepted_tree), so C08_prim_unpack / C08_comp_unpack (announced length within the declared maximum and
+   within the bytes available) hold at every node of the tree *)
+Theorem C08_unpack_tree : forall s, coherent s -> forall st0 d st n, shaped s st0 -> unpack_f s st0 d = (st, UOk n) ->
+  shaped s st /\ accepted_tree s st.
+Proof. exact spec_acc_tree. Qed.
+Print Assumptions C08_unpack_tree.
+
+(* whole messages: when Pack of a message succeeds the declared lengths were enforced in every populated data element at
+   every depth, and after a successful Unpack every populated data element, at every depth, was produced by a successful
+   Unpack of its own specification *)
+From Iso Require Import Model.Message Proofs.MessageRoundtrip.
+Theorem C08_message_pack_tree : forall S m m' b, (forall id s, zlookup id (ms_fields S) = Some s -> coherent s) ->
+  m_pack S m = (m', Ok b) ->
+  forall id, 2 <= id -> zmem id (m_present m) = true -> bm_is_presence_bit (ms_bm S) id = false ->
+    exists s st, zlookup id (ms_fields S) = Some s /\ zlookup id (m_fields m) = Some st /\ pack_enforced s st.
+Proof. exact message_pack_tree. Qed.
+Print Assumptions C08_message_pack_tree.
+Theorem C08_message_unpack_tree : forall S m0 d m n, msg_coherent S -> msg_shaped S m0 -> m_unpack S m0 d = (m, UOk n) ->
+  forall id, 2 <= id -> zmem id (m_present m) = true ->
+    exists s st, zlookup id (ms_fields S) = Some s /\ zlookup id (m_fields m) = Some st /\ accepted_tree s st.
+Proof. exact message_unpack_tree. Qed.
+Print Assumptions C08_message_unpack_tree.
 
 (* a nested specification: the inner Numeric element (maximum 6) given 7 digits makes the Pack of the outer composite fail,
    with 6 digits it packs; the specification is coherent (C01_ex_coherent) *)
